@@ -7,7 +7,9 @@ VERIF = os.path.dirname(os.path.dirname(os.path.abspath(__file__)))
 EXTRA = {'C12-b': ['C18'], 'C03-a': ['C10'], 'C03-b': ['C18'], 'C06-a': ['C18'], 'C08-a': ['C18'], 'C08-b': ['C05'],
          'C05-a': ['C08'], 'C17-b': ['C18'], 'C14-b': ['C07'], 'C19-a': ['C10'], 'C07-b': ['C12'], 'C20-b': ['C01'], 'C04x-a': ['C18', 'C06'], 'C04x-b': ['C16'], 'C01x-a': ['C19'], 'C07x-b': ['C12'], 'C08x-b': ['C11', 'C05'],
          'C05x-a': ['C20'], 'C12x-b': ['C04'], 'C18x-a': ['C06'], 'C18x-b': ['C19', 'C10'], 'C19x-b': ['C08'], 'C03x-b': ['C14'], 'C14x-a': ['C03'],
-         'C15x-b': ['C04'], 'C20x-a': ['C01'], 'C13x-b': ['C06']}
+         'C15x-b': ['C04'], 'C20x-a': ['C01'], 'C13x-b': ['C06'],
+         'C12y-b': ['C15'], 'C15y-b': ['C01'], 'C20y-b': ['C18'], 'C07y-b': ['C01'], 'C10y-a': ['C01'], 'C17y-a': ['C14'], 'C17y-b': ['C07', 'C14'],
+         'C14y-a': ['C03'], 'C14y-b': ['C04'], 'C13y-b': ['C03'], 'C16y-b': ['C01', 'C19'], 'C18y-b': ['C06'], 'C06y-a': ['C15'], 'C08y-b': ['C05'], 'C01y-b': ['C20']}
 
 def main():
     wt = [a for a in sys.argv[1:] if a.startswith('--worktree=')]
